@@ -82,7 +82,7 @@ def run_streams(ctx, kinds, exh_narrow, exh_wide, sim_num, sim_depth, rich, n_ra
             continue
         seen.add(key)
         beh = json.loads(vlib.nth_line(allb, m["line"]))
-        if m["kind"] == "CmdPIDF" and any(st["in"].get("c") == "fol" and st["in"].get("o", {}).get("c") == "err" for st in beh["steps"]):
+        if followed_getter_error(m, beh):
             # how a controller that FOLLOWS a command getter passes on that getter's error is the following clause of C15 (checked there on the
             # trait's provided method); the stream properties speak of errors of the INPUT.  Modelled all the same; reported as beyond-property.
             ctx.beyond_property("Streams.tla (CmdPIDF: command PID following a command getter that reports an error) behaviour #%d step %d: %s; expected %s, "
@@ -109,6 +109,10 @@ def replay_streams(pid, v):
     return mism[0] if mism else None
 
 
+def followed_getter_error(m, beh):
+    return m["kind"] == "CmdPIDF" and any(st["in"].get("c") == "fol" and st["in"].get("o", {}).get("c") == "err" for st in beh["steps"])
+
+
 def replay_under(ctx, tags, extra_args=None):
     """replay the behaviours of this run under other feature configurations of rrtk as well"""
     import p_config
@@ -128,6 +132,10 @@ def replay_under(ctx, tags, extra_args=None):
                 continue
             seen.add(key)
             beh = json.loads(vlib.nth_line(allb, m["line"]))
+            if followed_getter_error(m, beh):
+                ctx.beyond_property("[%s build] Streams.tla (CmdPIDF following a command getter that reports an error) behaviour #%d step %d: %s" % (
+                    tag, m["line"], m["step"], m["what"]))
+                continue
             ctx.violation("%s:%s:%s" % (m["kind"], m["what"], tag), {"replay_kind": "streams", "behaviour": beh, "conc": m["conc"], "mismatch": m,
                                                                    "features": feats, "tag": tag},
                           "[%s build] %s behaviour #%d step %d: %s; expected %s, implementation gave %s" % (
